@@ -690,16 +690,14 @@ class PSFPhotometry(ModelImageMixin):
             flux -= init_params['local_bkg']
             init_params[fluxcolname] = flux
 
-        grouper = self.grouper
-        if 'group_id' in init_params.colnames:
-            # grouper is ignored if group_id is input in init_params
-            grouper = None
-        if grouper is not None:
-            group_id = grouper(init_params[xcolname],
-                               init_params[ycolname])
-        else:
-            group_id = init_params['id'].copy()
-        init_params['group_id'] = group_id
+        # the grouper is ignored if group_id is input in init_params
+        if 'group_id' not in init_params.colnames:
+            if self.grouper is not None:
+                group_id = self.grouper(init_params[xcolname],
+                                        init_params[ycolname])
+            else:
+                group_id = init_params['id'].copy()
+            init_params['group_id'] = group_id
 
         # add columns for any additional parameters that are fit
         for param_name, colname in self._param_maps['init'].items():
